@@ -306,6 +306,11 @@ var funcRegistry = map[string]interface{}{
 		}
 		return strings.Join(ps, sep)
 	},
+	// a recording stage whose result is not of string kind (converted when a string is expected)
+	"stageb": func(id int, s string) []byte {
+		probeLog = append(probeLog, fmt.Sprintf("(probe %d)", id))
+		return []byte(s + strconv.Itoa(id))
+	},
 	"stage": func(id int, s string) string {
 		probeLog = append(probeLog, fmt.Sprintf("(probe %d)", id))
 		return s + strconv.Itoa(id)
